@@ -487,5 +487,5 @@ Example C07_example_round3 :
                         Place 7 0; NbhdAgents 1 0 2 true; Nbhd 0 2 3 true] |}
   = [[-5; 1000001; -5; 2000002; -5]; [2; 0]; [0; 7]; [0; 8]; [2; 0; 7; 8]; [0; 7]; [3; 0; 7; 8]; [0; 2]] /\
   vor_conn_cert [(3, 15); (18, 20)] [(0, 1, 4); (1, 5, 4); (1, 2, 5); (2, 3, 5); (3, 4, 5); (3, 0, 4)] = true /\
-  gen_hex_select 3 = true /\ gen_hex_select 4 = false.
+  hex_offsets [0; 3] = gen_hex_even_offsets /\ hex_offsets [7; 4] = gen_hex_odd_offsets.
 Proof. vm_compute. repeat split; reflexivity. Qed.
